@@ -309,18 +309,33 @@ func (c *Ctx) condsAt(fd *ast.FuncDecl, target ast.Node) []condLit {
 						inBody = true
 					}
 				}
+				// the condition of one case: a disjunction over its expressions (compared with the tag, if any)
+				caseCond := func(e ast.Expr) ast.Expr {
+					if st.Tag == nil {
+						return e
+					}
+					return &ast.BinaryExpr{X: st.Tag, Op: token.EQL, OpPos: e.Pos(), Y: e}
+				}
 				if inBody {
-					if st.Tag == nil && len(cc.List) == 1 {
-						stack = append(stack, condLit{e: cc.List[0], neg: false})
+					if len(cc.List) > 0 {
+						var disj ast.Expr
+						for _, e := range cc.List {
+							if disj == nil {
+								disj = caseCond(e)
+							} else {
+								disj = &ast.BinaryExpr{X: disj, Op: token.LOR, OpPos: e.Pos(), Y: caseCond(e)}
+							}
+						}
+						stack = append(stack, condLit{e: disj, neg: false})
 						pushed++
 					}
 					walkList(cc.Body)
 					stack = stack[:len(stack)-pushed]
 					return
 				}
-				if st.Tag == nil {
+				{
 					for _, e := range cc.List {
-						stack = append(stack, condLit{e: e, neg: true})
+						stack = append(stack, condLit{e: caseCond(e), neg: true})
 						pushed++
 					}
 				}
